@@ -176,21 +176,32 @@ type Req struct {
 	Body        string
 	FailAfter   int    // >= 0: the body reader fails after that many bytes
 	PfBody      string // PROPFIND: none | allprop | propname | empty | bad | junk
+	Cancel      int    // >= 0: the request context is cancelled once that many body bytes were delivered (0: before the request is served)
 }
 
 func NewReq(method, path string) Req {
-	return Req{Method: method, Path: path, FailAfter: -1, PfBody: "none"}
+	return Req{Method: method, Path: path, FailAfter: -1, PfBody: "none", Cancel: -1}
 }
 
 func (r Req) Sx() string {
-	return hx.L("req", hx.S(r.Method), hx.S(r.Path), hx.S(r.Depth), hx.S(r.Overwrite), hx.S(r.Dest), hx.S(r.CType),
-		hx.S(r.IfMatch), hx.S(r.IfNoneMatch), hx.S(r.Body), hx.I(int64(r.FailAfter)), r.PfBody)
+	items := []string{"req", hx.S(r.Method), hx.S(r.Path), hx.S(r.Depth), hx.S(r.Overwrite), hx.S(r.Dest), hx.S(r.CType),
+		hx.S(r.IfMatch), hx.S(r.IfNoneMatch), hx.S(r.Body), hx.I(int64(r.FailAfter)), r.PfBody}
+	if r.Cancel >= 0 {
+		// the model has no such field: no function of the file server reads the
+		// context, and the correspondence shows that the code ignores it too
+		items = append(items, hx.I(int64(r.Cancel)))
+	}
+	return hx.L(items...)
 }
 
 func ParseReq(x hx.Sx) Req {
 	a := x.Args()
-	return Req{Method: a[0].Str(), Path: a[1].Str(), Depth: a[2].Str(), Overwrite: a[3].Str(), Dest: a[4].Str(), CType: a[5].Str(),
-		IfMatch: a[6].Str(), IfNoneMatch: a[7].Str(), Body: a[8].Str(), FailAfter: int(a[9].Int()), PfBody: a[10].Atom}
+	r := Req{Method: a[0].Str(), Path: a[1].Str(), Depth: a[2].Str(), Overwrite: a[3].Str(), Dest: a[4].Str(), CType: a[5].Str(),
+		IfMatch: a[6].Str(), IfNoneMatch: a[7].Str(), Body: a[8].Str(), FailAfter: int(a[9].Int()), PfBody: a[10].Atom, Cancel: -1}
+	if len(a) > 11 {
+		r.Cancel = int(a[11].Int())
+	}
+	return r
 }
 
 var pfBodies = map[string]string{
@@ -225,6 +236,132 @@ func (f *failReader) Read(p []byte) (int, error) {
 	return n, nil
 }
 func (f *failReader) Close() error { return nil }
+
+// cancelReader cancels the request context once `after` bytes were delivered.
+type cancelReader struct {
+	r      io.Reader
+	after  int
+	seen   int
+	cancel context.CancelFunc
+}
+
+func (c *cancelReader) Read(p []byte) (int, error) {
+	if c.seen >= c.after {
+		c.cancel()
+	} else if len(p) > c.after-c.seen {
+		p = p[:c.after-c.seen]
+	}
+	n, err := c.r.Read(p)
+	c.seen += n
+	if c.seen >= c.after {
+		c.cancel()
+	}
+	return n, err
+}
+
+// probeReader looks at the sandbox the first time the body is read: whatever is
+// there and was not there before the request is a temporary file of the upload.
+type probeReader struct {
+	r    io.Reader
+	once bool
+	look func()
+}
+
+func (p *probeReader) Read(b []byte) (int, error) {
+	if !p.once {
+		p.once = true
+		p.look()
+	}
+	return p.r.Read(b)
+}
+
+// newPaths lists the paths present in now and absent from before, and the files whose bytes differ (relative, slash separated).
+func newPaths(before, now *Node, prefix string, out *[]string) {
+	if now == nil || !now.IsDir {
+		return
+	}
+	for _, k := range now.Names {
+		var b *Node
+		if before != nil && before.IsDir {
+			b = before.Kids[k]
+		}
+		if b == nil || (!b.IsDir && !now.Kids[k].IsDir && b.Content != now.Kids[k].Content) {
+			// new, or a file that was there and holds something else now (a temporary name that was taken)
+			*out = append(*out, prefix+k)
+			continue
+		}
+		newPaths(b, now.Kids[k], prefix+k+"/", out)
+	}
+}
+
+// ProbeTemps serves r (a PUT) and reports which names exist in the sandbox while
+// the body is being read that did not exist before.
+func (s *Sandbox) ProbeTemps(r Req, before *Node) []string {
+	var temps []string
+	s.wrap = func(b io.Reader) io.Reader {
+		return &probeReader{r: b, look: func() { newPaths(before, Snapshot(s.Dir), "", &temps) }}
+	}
+	s.Do(r, before)
+	s.wrap = nil
+	return temps
+}
+
+// stepReader hands the body out in the given pieces and looks at the sandbox at
+// every Read: the states the upload passes through.
+type stepReader struct {
+	chunks [][]byte
+	fails  bool
+	look   func()
+	given  []string // the pieces as actually delivered
+}
+
+func (p *stepReader) Read(b []byte) (int, error) {
+	p.look()
+	for len(p.chunks) > 0 && len(p.chunks[0]) == 0 {
+		p.chunks = p.chunks[1:]
+	}
+	if len(p.chunks) == 0 {
+		if p.fails {
+			return 0, errors.New("verif: injected body failure")
+		}
+		return 0, io.EOF
+	}
+	n := copy(b, p.chunks[0])
+	p.given = append(p.given, string(p.chunks[0][:n]))
+	p.chunks[0] = p.chunks[0][n:]
+	return n, nil
+}
+
+// Steps is what DoSteps saw of one upload.
+type Steps struct {
+	Given []string // body pieces delivered
+	Seen  []*Node  // sandbox at each Read of the body
+	Temps []string // paths present at the first Read that were not there before
+}
+
+// DoSteps serves a PUT whose body arrives in the given pieces (and then ends, or
+// fails), recording the sandbox at every read of the body.
+func (s *Sandbox) DoSteps(r Req, chunks []string, fails bool, before *Node) (Derived, Obs, *Node, Steps) {
+	var st Steps
+	sr := &stepReader{fails: fails}
+	for _, c := range chunks {
+		sr.chunks = append(sr.chunks, []byte(c))
+	}
+	sr.look = func() {
+		now := Snapshot(s.Dir)
+		if len(st.Seen) == 0 {
+			newPaths(before, now, "", &st.Temps)
+		}
+		st.Seen = append(st.Seen, now)
+	}
+	s.wrap = func(io.Reader) io.Reader { return sr }
+	r.Body = strings.Join(chunks, "")
+	d, o, after := s.Do(r, before)
+	s.wrap = nil
+	d.BodyFails = fails
+	st.Given = sr.given
+	return d, o, after, st
+}
 
 // Derived holds the request fields the model receives that come from unmodelled
 // library code or OS metadata.
@@ -358,6 +495,7 @@ type Sandbox struct {
 	RootRel []string
 	Handler *webdav.Handler
 	FS      webdav.LocalFileSystem
+	wrap    func(io.Reader) io.Reader
 }
 
 func NewSandbox(dir string, rootRel []string) *Sandbox {
@@ -434,7 +572,17 @@ func (s *Sandbox) Do(r Req, before *Node) (Derived, Obs, *Node) {
 	if body == nil {
 		body = http.NoBody
 	}
-	req := httptest.NewRequest("GET", "http://h/", body)
+	if s.wrap != nil {
+		body = s.wrap(body)
+	}
+	ctx, cancel := context.WithCancel(context.Background())
+	defer cancel()
+	if r.Cancel == 0 {
+		cancel()
+	} else if r.Cancel > 0 {
+		body = &cancelReader{r: body, after: r.Cancel, cancel: cancel}
+	}
+	req := httptest.NewRequest("GET", "http://h/", body).WithContext(ctx)
 	req.Method = r.Method
 	req.URL.Path = r.Path
 	req.RequestURI = ""
